@@ -260,10 +260,10 @@ static int parse_opts(char **f, int nf, int from) {
   return 1;
 }
 
-static void emit_ops_line(char *ops) {
+static void emit_ops_line(char *ops, const char *tag) {
   /* re-render the ops with value tokens so the checker never sees long values */
   static char *of[MAXL]; int n = split_on(ops, ',', of, MAXL), i;
-  printf("w ");
+  printf("%s ", tag);
   for (i = 0; i < n; i++) {
     char *pf[4]; int np = split_on(of[i], ':', pf, 4);
     if (i) fputc(',', stdout);
@@ -310,8 +310,8 @@ static void do_write(const char *ops, int sync) {
     } else if (g_journal) jmark("wfail %llu %d %d", (unsigned long long)seq0, cnt, rc);
   }
   if (g_db->logfile_number != lognum) printf("switch\n");
-  if (rc == LDB_OK) { copy = strdup(ops); emit_ops_line(copy); free(copy); }
-  else printf("werr %d\n", rc);
+  if (rc == LDB_OK) { copy = strdup(ops); emit_ops_line(copy, "w"); free(copy); }
+  else { copy = strdup(ops); emit_ops_line(copy, "wf"); free(copy); printf("werr %d\n", rc); }
   ldb_batch_clear(&b);
 }
 
@@ -322,6 +322,48 @@ static void iter_report(ldb_iter_t *it, uint64_t seq, const char *op) {
     printf("1 "); print_hex(stdout, k.data, k.size); fputc(' ', stdout); val_token(stdout, v.data, v.size);
   } else printf("0 - -");
   printf(" %d\n", ldb_iter_status(it));
+}
+
+/* For journal prefixes n = from, from+stride, .. <= to and every image variant: materialise, reopen with the real
+   code, dump all internal entries (`crash` line).  With follow: then write three sync batches, close, reopen, dump
+   again (`crash2` line) -- writes made after recovery must win and persist. */
+static void crash_points(int from, int to, int stride, const char *vars, const char *imgdir, int follow) {
+  int n, vi, saved = g_journal; long savedfault = g_fault_at;
+  g_journal = 0; g_fault_at = -1;
+  if (stride < 1) stride = 1;
+  g_crng = 88172645463325252ULL ^ (uint64_t)nJ;
+  for (n = from; n <= to; n += stride) {
+    for (vi = 0; vars[vi]; vi++) {
+      int v = vars[vi] - '0', rc; ldb_t *db2 = NULL; ldb_dbopt_t o2 = g_opt;
+      materialise(n, v, imgdir);
+      o2.create_if_missing = 1; o2.error_if_exists = 0; o2.info_log = NULL; o2.block_cache = NULL;
+      g_first_apply_lognum = -1;
+      rc = ldb_open(imgdir, &o2, &db2);
+      printf("crash %d %d rc=%d", n, v, rc);
+      if (rc == LDB_OK) {
+        printf(" lognum=%lld lastseq=%llu ", g_first_apply_lognum, (unsigned long long)db2->versions->last_sequence);
+        dump_internal(db2);
+        if (follow) {
+          int k; uint64_t seq0 = db2->versions->last_sequence + 1; int wrc = 0;
+          for (k = 0; k < 3 && wrc == 0; k++) {
+            char kb[64], vb[64]; ldb_slice_t ks, vs; ldb_writeopt_t wo = *ldb_writeopt_default; wo.sync = 1;
+            snprintf(kb, sizeof(kb), "zz-follow-%d", k); snprintf(vb, sizeof(vb), "f%d-%d-%d", n, v, k);
+            ks = ldb_string(kb); vs = ldb_string(vb);
+            wrc = ldb_put(db2, &ks, &vs, &wo);
+          }
+          ldb_close(db2); db2 = NULL;
+          fputc('\n', stdout);
+          rc = ldb_open(imgdir, &o2, &db2);
+          printf("crash2 %d %d rc=%d wrc=%d seq0=%llu", n, v, rc, wrc, (unsigned long long)seq0);
+          if (rc == LDB_OK) { printf(" lastseq=%llu ", (unsigned long long)db2->versions->last_sequence); dump_internal(db2); }
+        }
+        if (db2) ldb_close(db2);
+      }
+      fputc('\n', stdout);
+      flush_bg_events_discard();
+    }
+  }
+  g_journal = saved; g_fault_at = savedfault;
 }
 
 static void handle(char *line) {
@@ -351,6 +393,8 @@ static void handle(char *line) {
     flush_bg_events();
     if (g_journal) jprint_new();
     printf("close\n");
+  } else if (nf == 1 && !strcmp(f[0], "faultmode")) {
+    printf("faultmode\n");
   } else if (nf == 2 && !strcmp(f[0], "journal")) {
     g_journal = !strcmp(f[1], "on");
     if (!strcmp(f[1], "reset")) jreset();
@@ -366,47 +410,13 @@ static void handle(char *line) {
   } else if (nf == 1 && !strcmp(f[0], "faultstat")) {
     printf("faultstat calls=%ld fired=%ld\n", g_fault_count, g_fault_fired);
   } else if ((nf == 4 || nf == 5) && !strcmp(f[0], "crashscan")) {
-    /* crashscan <stride> <variants e.g. 0134> <imgdir> [follow]: database must be closed.
-       For every journal prefix n (stride) and image variant: materialise, reopen with the real code, dump all
-       internal entries (`crash` line).  With `follow`: then write three sync batches, close, reopen, dump again
-       (`crash2` line) -- writes made after recovery must win and persist. */
-    int stride = atoi(f[1]), n, vi, saved = g_journal; char *vars = f[2]; int follow = nf == 5;
     if (g_db) { printf("err crashscan needs a closed db\n"); return; }
-    g_journal = 0;
-    if (stride < 1) stride = 1;
-    g_crng = 88172645463325252ULL ^ (uint64_t)nJ;
-    for (n = 1; n <= nJ; n += stride) {
-      for (vi = 0; vars[vi]; vi++) {
-        int v = vars[vi] - '0', rc; ldb_t *db2 = NULL; ldb_dbopt_t o2 = g_opt;
-        materialise(n, v, f[3]);
-        o2.create_if_missing = 1; o2.error_if_exists = 0; o2.info_log = NULL; o2.block_cache = NULL;
-        g_first_apply_lognum = -1;
-        rc = ldb_open(f[3], &o2, &db2);
-        printf("crash %d %d rc=%d", n, v, rc);
-        if (rc == LDB_OK) {
-          printf(" lognum=%lld lastseq=%llu ", g_first_apply_lognum, (unsigned long long)db2->versions->last_sequence);
-          dump_internal(db2);
-          if (follow) {
-            int k; uint64_t seq0 = db2->versions->last_sequence + 1; int wrc = 0;
-            for (k = 0; k < 3 && wrc == 0; k++) {
-              char kb[64], vb[64]; ldb_slice_t ks, vs; ldb_writeopt_t wo = *ldb_writeopt_default; wo.sync = 1;
-              snprintf(kb, sizeof(kb), "zz-follow-%d", k); snprintf(vb, sizeof(vb), "f%d-%d-%d", n, v, k);
-              ks = ldb_string(kb); vs = ldb_string(vb);
-              wrc = ldb_put(db2, &ks, &vs, &wo);
-            }
-            ldb_close(db2); db2 = NULL;
-            fputc('\n', stdout);
-            rc = ldb_open(f[3], &o2, &db2);
-            printf("crash2 %d %d rc=%d wrc=%d seq0=%llu", n, v, rc, wrc, (unsigned long long)seq0);
-            if (rc == LDB_OK) { printf(" lastseq=%llu ", (unsigned long long)db2->versions->last_sequence); dump_internal(db2); }
-          }
-          if (db2) ldb_close(db2);
-        }
-        fputc('\n', stdout);
-        flush_bg_events_discard();
-      }
-    }
-    g_journal = saved;
+    crash_points(1, nJ, atoi(f[1]), f[2], f[3], nf == 5);
+  } else if ((nf == 4 || nf == 5) && !strcmp(f[0], "crashat")) {
+    /* crashat <n|-1> <variants> <imgdir> [follow]: one journal prefix (-1 = everything so far); the database may stay open */
+    int n = atoi(f[1]); if (n < 0 || n > nJ) n = nJ;
+    if (g_journal) jprint_new();
+    crash_points(n, n, 1, f[2], f[3], nf == 5);
   } else if (!g_db) {
     printf("err not open\n");
   } else if ((nf == 3 || nf == 4) && !strcmp(f[0], "put")) {
